@@ -958,8 +958,23 @@ def oracle_companion(ctx, rng):
         header = bytes([t]) + (len(p) + 16).to_bytes(3, "big")
         wire += header + inpeer.encrypt(i.to_bytes(12, "little"), p, header)
     positions = [None] + (list(range(len(wire))) if ctx.thorough else sorted(set(list(range(0, 30)) + rng.sample(range(len(wire)), 250))))
+    # besides bit flips: the (authenticated) length field of every frame rewritten to every
+    # small value and to its neighbours - a frame shorter than a tag must not be taken as is
+    starts, o_ = [], 0
+    for (_t, p_) in plan:
+        starts.append((o_, len(p_) + 16))
+        o_ += 4 + len(p_) + 16
+    for (st, ln) in starts:
+        for n in list(range(0, 19)) + [ln - 1, ln + 1, ln - 16, 255, 256]:
+            if 0 <= n < 2 ** 24 and n != ln:
+                positions.append(("len", st, n))
     for pos in positions:
-        w = wire if pos is None else wire[:pos] + bytes([wire[pos] ^ (1 << rng.randrange(8))]) + wire[pos + 1:]
+        if pos is None:
+            w = wire
+        elif isinstance(pos, tuple):
+            w = wire[:pos[1] + 1] + pos[2].to_bytes(3, "big") + wire[pos[1] + 4:]
+        else:
+            w = wire[:pos] + bytes([wire[pos] ^ (1 << rng.randrange(8))]) + wire[pos + 1:]
         got = []
 
         class L:
@@ -975,7 +990,7 @@ def oracle_companion(ctx, rng):
                 c.data_received(chunk)
         except Exception as e:  # noqa: BLE001
             got.append(("exc", type(e).__name__.encode()))
-        ctx.case(["comp-oracle-recv", pos, cuts], True)
+        ctx.case(["comp-oracle-recv", list(pos) if isinstance(pos, tuple) else pos, cuts], True)
         nonempty = [p for (_t, p) in got if p]
         if pos is None:
             if nonempty != payloads:
